@@ -114,10 +114,14 @@ def generate(run_seed, tier):
         elif r < 0.32:
             a = o.uniform(0.0, 0.6)
             ops.append(['model_sub', a, a + o.uniform(0.2, 0.4)])
-        elif r < 0.47:
+        elif r < 0.44:
             ops.append(['model_contrib'])
-        elif r < 0.62:
+        elif r < 0.56:
             ops.append(['model_full_contrib'])
+        elif r < 0.62:
+            a = o.uniform(0.0, 0.6)
+            ops.append([o.choice(['contrib_sub', 'full_sub']), a,
+                        a + o.uniform(0.2, 0.4)])
         elif r < 0.68:
             ops.append(['store_contributions', o.choice([1, 3, 6])])
         elif r < 0.76:
@@ -425,7 +429,21 @@ def execute(case, keep_text=False):
                 evaluate(step, 'model_sub', lambda m: m.model(wngrid=sub),
                          lambda m: m.model(wngrid=sub),
                          cmp_model(step, 'model_sub'))
-            elif k in ('model_contrib', 'model_full_contrib'):
+            elif k in ('model_contrib', 'model_full_contrib', 'contrib_sub',
+                       'full_sub'):
+                sub = None
+                if k.endswith('_sub'):
+                    # per-contribution / per-component evaluation restricted
+                    # to a sub-range of the native grid
+                    wn = S.native_grid(cfg)
+                    lo = wn[0] + op[1] * (wn[-1] - wn[0])
+                    hi = wn[0] + min(op[2], 1.0) * (wn[-1] - wn[0])
+                    sub = wn[(wn >= lo) & (wn <= hi)]
+                    if len(sub) < 2:
+                        continue
+                    k = 'model_contrib' if k == 'contrib_sub' \
+                        else 'model_full_contrib'
+
                 def cmp(got, ref, k=k):
                     if sorted(got[1]) != sorted(ref[1]):
                         viol('history-dependence', k + ':keys', '%s vs %s'
@@ -449,6 +467,40 @@ def execute(case, keep_text=False):
                                      'differs from a fresh model at the same '
                                      'parameters', step)
                                 raise Stop()
+                if sub is not None:
+                    got = evaluate(step, k + ':sub',
+                                   lambda m: getattr(m, k)(wngrid=sub),
+                                   lambda m: getattr(m, k)(wngrid=sub), cmp)
+                    check_list(step, k)
+                    if got is not None and not collision:
+                        out.bump('probes', 'parts_on_sub_grid')
+                        if k == 'model_contrib':
+                            Tsub = model.model(wngrid=sub)[2]
+                            prod = np.ones_like(Tsub)
+                            for nme in names:
+                                prod = prod * got[1][nme][1]
+                            ok, msg = t_close(Tsub, prod, Tsub)
+                            if not ok:
+                                viol('composition', 'R1:full-vs-product:sub',
+                                     'on a sub-range: full transmittance is '
+                                     'not the product over %s: %s'
+                                     % (names, msg), step)
+                                raise Stop()
+                        else:
+                            _, per = model.model_contrib(wngrid=sub)
+                            for nme in names:
+                                prod = np.ones_like(per[nme][1])
+                                for cname, absorp, tau, _x in got[1][nme]:
+                                    prod = prod * tau
+                                ok, msg = t_close(per[nme][1], prod)
+                                if not ok:
+                                    viol('composition', 'R2:%s:sub' % nme,
+                                         'on a sub-range: %s transmittance is '
+                                         'not the product over its components'
+                                         ': %s' % (nme, msg), step)
+                                    raise Stop()
+                        check_list(step, k)
+                    continue
                 got = evaluate(step, k, lambda m: getattr(m, k)(),
                                lambda m: getattr(m, k)(), cmp)
                 if got is not None:
